@@ -25,33 +25,40 @@ Section Loc.
     rewrite Hp, (peek_token_idem il id F _ _ _ Hp). reflexivity.
   Qed.
 
+  (** number of lines of a printed file *)
+  Fixpoint lines_of (ds : list sdef) : Z :=
+    match ds with
+    | [] => 0
+    | d :: t => def_lines d + lines_of t
+    end.
+
   (** the loop over a well-formed prefix [ds] followed by [c] reaches the boundary before [c] *)
   Lemma parse_loop_prefix : forall c ds f defs line off st,
-    Forall wf_sdef ds -> rest_ok F c -> (length (print ds) + length c + 4 <= F)%nat ->
+    Forall wf_sdef ds -> rest_top F c -> (length (print ds) + length c + 4 <= F)%nat ->
     Ready il id F line off (print ds ++ c) st -> (length ds <= f)%nat ->
     exists st', the_loop f defs st = the_loop (f - length ds) (defs ++ elab_from line off ds) st'
-                /\ Ready il id F (line + Z.of_nat (length ds)) (off + blen (print ds)) c st'.
+                /\ Ready il id F (line + lines_of ds) (off + blen (print ds)) c st'.
   Proof.
     intros c. induction ds as [|d ds IH]; intros f defs line off st Hw Hc HF HR Hf.
-    - exists st. cbn [print elab_from length app] in *. rewrite app_nil_r, Nat.sub_0_r, blen_nil, !Z.add_0_r.
+    - exists st. cbn [print elab_from length app lines_of] in *. rewrite app_nil_r, Nat.sub_0_r, blen_nil, !Z.add_0_r.
       split; [reflexivity|exact HR].
     - inversion Hw as [|? ? Hd Hw']; subst. cbn [print length] in *. rewrite <- app_assoc in HR.
       rewrite app_length in HF. destruct f as [|f]; [lia|].
-      assert (Hok : rest_ok F (print ds ++ c)).
+      assert (Hok : rest_top F (print ds ++ c)).
       { destruct ds as [|d' ds']; [exact Hc|]. inversion Hw' as [|? ? Hd' _]; subst. right. cbn [print].
         rewrite <- app_assoc.
-        destruct (print_def_head d' (print ds' ++ c) Hd') as (kw & ch & r & E & Hk & Hch & Hnc & Hl).
+        destruct (print_def_head d' (print ds' ++ c) Hd') as (kw & ch & r & E & Hk & Hch & Hnc & Hl & Hns).
         exists kw, ch, r. split; [exact E|]. split; [exact Hk|]. split; [exact Hch|]. split; [exact Hnc|].
-        cbn [print] in HF. rewrite app_length in HF. lia. }
+        split; [|exact Hns]. cbn [print] in HF. rewrite app_length in HF. lia. }
       destruct (step_def il id F d (print ds ++ c) defs line off Hd Hok) with (st := st)
         as (kw & st1 & st2 & Ep & Ek & Ed & HR2); [rewrite app_length; lia|exact HR|].
       cbn [parse_loop_with]. rewrite Ep. cbn [t_typ kwtok]. change (TIdent =? EOF) with false. cbv iota.
       unfold bind. rewrite Ek, Ed. cbn [elab_from].
-      destruct (IH f (defs ++ [elab_def line off d]) (line + 1) (off + blen (print_def d)) st2 Hw' Hc ltac:(lia) HR2 ltac:(lia))
+      destruct (IH f (defs ++ [elab_def line off d]) (line + def_lines d) (off + blen (print_def d)) st2 Hw' Hc ltac:(lia) HR2 ltac:(lia))
         as (st' & E & HR').
       exists st'. split.
       + rewrite E. cbn [Nat.sub]. rewrite <- app_assoc. reflexivity.
-      + rewrite blen_app. replace (line + Z.of_nat (S (length ds))) with (line + 1 + Z.of_nat (length ds)) by lia.
+      + rewrite blen_app. cbn [lines_of]. replace (line + (def_lines d + lines_of ds)) with (line + def_lines d + lines_of ds) by lia.
         replace (off + (blen (print_def d) + blen (print ds))) with (off + blen (print_def d) + blen (print ds)) by lia.
         exact HR'.
   Qed.
@@ -78,7 +85,8 @@ Qed.
 
 Theorem error_local_partial : forall il id ds1 c pos k defs,
   Forall wf_sdef ds1 -> Forall byte c ->
-  (c = [] \/ exists kw ch r, c = kw ++ ch :: r /\ is_ident kw /\ ascii ch /\ idc ch = false) ->
+  (c = [] \/ exists kw ch r, c = kw ++ ch :: r /\ is_ident kw /\ ascii ch /\ idc ch = false
+                            /\ bytes_eqb kw kw_signal = false) ->
   parse_bytes il id (print ds1 ++ c) = Err pos k defs ->
   (exists more, defs = elaborate ds1 ++ more) /\ blen (print ds1) <= p_offset pos <= blen (print ds1 ++ c).
 Proof.
@@ -86,14 +94,15 @@ Proof.
   set (F := fuel_for (print ds1 ++ c)) in *.
   assert (HFlen : F = (length (print ds1) + length c + 4)%nat) by (unfold F, fuel_for; rewrite app_length; reflexivity).
   pose proof (length_print_ge ds1 Hw) as Hge.
-  assert (Hok : rest_ok F c).
-  { destruct Hc as [->|(kw & ch & r & -> & Hk & Hch & Hnc)]; [left; reflexivity|right].
-    exists kw, ch, r. repeat split; try assumption; try apply Hch. rewrite app_length in HFlen. cbn [length] in HFlen. lia. }
+  assert (Hok : rest_top F c).
+  { destruct Hc as [->|(kw & ch & r & -> & Hk & Hch & Hnc & Hns)]; [left; reflexivity|right].
+    exists kw, ch, r. split; [reflexivity|]. split; [exact Hk|]. split; [exact Hch|]. split; [exact Hnc|].
+    split; [|exact Hns]. rewrite app_length in HFlen. cbn [length] in HFlen. lia. }
   destruct (parse_loop_prefix il id F c ds1 F [] 1 0 (p_init (print ds1 ++ c)) Hw Hok ltac:(lia)) as (st' & E & HR);
     [apply ready_init; lia|lia|].
   rewrite E in H. cbn [app] in H. fold (elaborate ds1) in H. rewrite Z.add_0_l in HR.
   destruct HR as (HR1 & HR2).
-  destruct Hc as [->|(kw & ch & r & -> & Hk & Hch & Hnc)].
+  destruct Hc as [->|(kw & ch & r & -> & Hk & Hch & Hnc & _)].
   - (* nothing follows: the loop ends with Ok *)
     exfalso. destruct (HR1 eq_refl) as (tok & st'' & Ep & Ht).
     destruct (F - length ds1)%nat as [|f'] eqn:Ef; [lia|]. cbn [parse_loop_with] in H. rewrite Ep, Ht in H. discriminate H.
@@ -105,11 +114,18 @@ Proof.
     { unfold N. rewrite blen_app, blen_app, blen_cons. lia. }
     assert (Hbr : Forall byte r).
     { apply Forall_app in Hbc. destruct Hbc as (_ & Hb). inversion Hb; assumption. }
-    pose proof (pinv_canon N (1 + Z.of_nat (length ds1)) (blen (print ds1)) kw ch r ll Hk Hch Hbr (blen_nonneg _) HN) as Hi.
+    pose proof (pinv_canon N (1 + lines_of ds1) (blen (print ds1)) kw ch r ll Hk Hch Hbr (blen_nonneg _) HN) as Hi.
     assert (HF : N + 1 < Z.of_nat F) by (unfold N, blen; rewrite HFlen, !app_length; cbn [length]; lia).
     pose proof (parse_loop_spec il id F N (blen (print ds1)) (blen_nonneg _) HF (F - length ds1) (elaborate ds1) _ Hi) as Hspec.
-    assert (Hfo : fuel_ok N (F - length ds1) (canon (1 + Z.of_nat (length ds1)) (blen (print ds1)) kw ch r ll)).
+    assert (Hfo : fuel_ok N (F - length ds1) (canon (1 + lines_of ds1) (blen (print ds1)) kw ch r ll)).
     { unfold fuel_ok, nu, canon. cbn [p_look PS kwtok t_pos p_offset]. unfold N, blen. rewrite HFlen, !app_length. cbn [length]. lia. }
     specialize (Hspec Hfo). rewrite H in Hspec. cbn [outcome_ok] in Hspec.
     split; [|exact Hspec]. apply parse_loop_defs_prefix in H. exact H.
 Qed.
+
+(** an instance of the hypotheses: after the well-formed line "BS_:" the corrupted comment
+    [CM_ $] fails at the '$' (offset 9 >= 5) with exactly the BS_ definition reported *)
+Lemma error_local_instance : forall il id,
+  parse_bytes il id (print [SBitTiming None] ++ [67; 77; 95; 32; 36])
+  = Err {| p_line := 2; p_column := 5; p_offset := 9 |} ESyntax (elaborate [SBitTiming None]).
+Proof. intros. vm_compute. reflexivity. Qed.
